@@ -179,6 +179,14 @@ LAYOUTS = {
         "top/p/q/r/t.py": [("from", "top.p.q", ("y",))],
         "top/p/w/z.py": [("import", "top.p.q.r.t")],
     },
+    # pure grouping directories: no python file directly inside (only sub packages), nothing below them imports
+    "grouping": {
+        "top/__init__.py": [],
+        "top/x.py": [("import", "top.g.h.m")],
+        "top/g/h/m.py": [],
+        "top/g/h2/n.py": [],
+        "top/e/f/leaf.py": [],
+    },
     "wide": {
         "top/a/__init__.py": [],
         "top/a/m.py": [("import", "top.b.m"), ("import", "top.b.n.o"), ("rel", 2, "b.n", ("o",)), ("rel", 2, "b.n.o", ("name",))],
